@@ -119,7 +119,7 @@ class Run:
 def run(cfg, fault_at=None, resume_from=None, file_path=None, keep_points=False, fault_exc=InjectedFault):
     """One (possibly faulted, possibly resumed) run of the real sampler.
 
-    cfg keys: sampler, N, opts (schedule), cadence, n_final, precond, seed, ns, dtype, S
+    cfg keys: sampler, N, opts (schedule), cadence, n_final, n_final_steps, precond, seed, ns, dtype, S
     Checkpoints are collected as pickled bytes through a callback unless
     ``file_path`` is given (then aspire's own file callback writes them)."""
     import _kernel
@@ -176,6 +176,8 @@ def run(cfg, fault_at=None, resume_from=None, file_path=None, keep_points=False,
         else:
             smp.rng = np.random.default_rng(seed)
             kw["sampler_kwargs"] = {"nsteps": S, "progress": False}
+        if cfg.get("n_final_steps") is not None:
+            kw["sampler_kwargs"]["n_final_steps"] = cfg["n_final_steps"]  # consumed by SMCSampler.sample, not by the kernel
         res = smp.sample(N, **kw)
         out.result = {
             "final": snapshot_samples(res),
